@@ -13,7 +13,7 @@ import (
 func init() {
 	register(Rule{
 		Name:  "PIPE2",
-		Props: []string{"C01", "C02", "C06", "C09"},
+		Props: []string{"C01", "C02", "C03", "C04", "C06", "C09"},
 		Doc:   "imported schemas are rebased before being saved; every $ref written by a phase is canonical; the removal loop makes progress; the rewriters' panics are unreachable by typing",
 		Run:   pipe2Rules,
 	})
@@ -30,6 +30,415 @@ func pipe2Rules(c *Ctx) {
 	c.progressRule(reach)
 	c.panicUnreachable(reach)
 	c.resolveSkipped(reach)
+	c.reinlineRule(reach)
+	c.prefixSepRule(reach)
+	c.absJoinRule(reach)
+	c.sliceBounds(reach)
+	c.selfInline(reach)
+}
+
+// absJoinRule (C04/C01, PIPE-ABSJOIN): the normalisers join a $ref's document part onto the directory of a base
+// only for relative references. Every such join must be dominated by the two negative tests that make a
+// reference absolute — a host in its URL, and an absolute file-system path (filepath.IsAbs: such a path has no
+// scheme, so url.IsAbs does not see it). Without the second, an absolute file $ref inside an imported document is
+// glued onto the importing document's directory and the next import fails.
+func (c *Ctx) absJoinRule(reach []*core.FuncInfo) {
+	n := 0
+	for _, fi := range reach {
+		if !strings.HasSuffix(fi.Pkg.PkgPath, "/normalize") {
+			continue
+		}
+		info := c.info(fi)
+		sig := fi.Obj.Type().(*types.Signature)
+		// the reference input: a string parameter named by position (last string) or a spec.Ref parameter
+		var refParams []types.Object
+		for i := 0; i < sig.Params().Len(); i++ {
+			p := sig.Params().At(i)
+			if core.IsString(p.Type()) || core.IsSpecType(p.Type(), "Ref") {
+				refParams = append(refParams, p)
+			}
+		}
+		if len(refParams) == 0 {
+			continue
+		}
+		ord := 0
+		for _, call := range calls(fi.Decl.Body) {
+			cal := c.P.CalleeAny(fi, call)
+			if cal == nil || cal.FullName() != "path/filepath.Join" && cal.FullName() != "path.Join" {
+				continue
+			}
+			// joins a directory (…Dir(...)) with something else
+			hasDir := false
+			for _, a := range call.Args {
+				if c.mentionsCall(fi, a, "Dir", 0) {
+					hasDir = true
+				}
+			}
+			if !hasDir {
+				continue
+			}
+			n++
+			ord++
+			var absTest, hostTest bool
+			for _, cd := range c.conds(fi, call) {
+				if cd.Kind != core.CondBool {
+					continue
+				}
+				if cc, ok := core.Unparen(cd.Expr).(*ast.CallExpr); ok && cd.Neg {
+					if k := c.P.CalleeAny(fi, cc); k != nil && k.FullName() == "path/filepath.IsAbs" {
+						absTest = true
+					}
+				}
+				// !(u.Host != "")  or  u.Host == ""
+				if x, empty, ok := core.EmptyTest(info, cd); ok && empty {
+					if sel, isSel := core.Unparen(x).(*ast.SelectorExpr); isSel && sel.Sel.Name == "Host" {
+						hostTest = true
+					}
+				}
+			}
+			k := fmt.Sprintf("%s/Join#%d", fi.QName(), ord)
+			var missing []string
+			if !absTest {
+				missing = append(missing, "filepath.IsAbs(<reference>) being false")
+			}
+			if !hostTest {
+				missing = append(missing, "the reference's URL having no host")
+			}
+			c.S.Decide(len(missing) == 0, "C04", "PIPE-ABSJOIN", k, c.P.Pos(call.Pos()),
+				"the join onto the base directory happens only for references with no host and no absolute file path",
+				"a reference is joined onto the directory of its base without "+strings.Join(missing, " and without ")+" having been established: an absolute $ref (file-system path, no scheme) found in an imported document is rebased as if it were relative, and resolving the result fails")
+		}
+	}
+	if n < 3 {
+		c.S.Undecided("C04", "PIPE-ABSJOIN", "floor", "-", fmt.Sprintf("only %d joins onto a base directory found in the normalisers (confirmed by hand: 3+)", n))
+	}
+}
+
+// mentionsCall: the expression (through single-definition locals and field stores of the same base) contains a call
+// of a function with the given name.
+func (c *Ctx) mentionsCall(fi *core.FuncInfo, e ast.Expr, name string, depth int) bool {
+	if depth > 3 {
+		return false
+	}
+	info := c.info(fi)
+	found := false
+	ast.Inspect(e, func(n ast.Node) bool {
+		switch x := n.(type) {
+		case *ast.CallExpr:
+			if cal := c.P.CalleeAny(fi, x); cal != nil && cal.Name() == name {
+				found = true
+			}
+		case *ast.Ident:
+			if o, ok := info.Uses[x].(*types.Var); ok {
+				for _, d := range c.P.Locals(fi).Defs[o] {
+					if d.Kind == core.DefAssign && d.Expr != nil && c.mentionsCall(fi, d.Expr, name, depth+1) {
+						found = true
+					}
+				}
+			}
+		case *ast.SelectorExpr:
+			// u.Path assigned from path.Dir(u.Path)
+			ast.Inspect(fi.Decl.Body, func(m ast.Node) bool {
+				as, ok := m.(*ast.AssignStmt)
+				if !ok || len(as.Lhs) != 1 || len(as.Rhs) != 1 || as.Pos() > e.Pos() {
+					return true
+				}
+				if sameExpr(as.Lhs[0], x) && depth < 2 {
+					if cc, ok := core.Unparen(as.Rhs[0]).(*ast.CallExpr); ok {
+						if cal := c.P.CalleeAny(fi, cc); cal != nil && cal.Name() == name {
+							found = true
+						}
+					}
+				}
+				return true
+			})
+		}
+		return !found
+	})
+	return found
+}
+
+// reinlineRule (C03, GUARD-REINLINE): a phase that puts a schema back inline (replace.UpdateRefWithSchema into the
+// root document) and reports to its caller through a bool result must raise that result exactly when the schema is
+// analysed as complex and the place it was written to is not a top-level definition — and the place tested must be
+// the key the schema was written at. Otherwise a complex schema stays inline after a full flatten.
+func (c *Ctx) reinlineRule(reach []*core.FuncInfo) {
+	n := 0
+	for _, fi := range reach {
+		if fi.Pkg.PkgPath != core.ModPath {
+			continue
+		}
+		sig := fi.Obj.Type().(*types.Signature)
+		hasBool := false
+		for i := 0; i < sig.Results().Len(); i++ {
+			if core.IsBool(sig.Results().At(i).Type()) {
+				hasBool = true
+			}
+		}
+		if !hasBool {
+			continue
+		}
+		info := c.info(fi)
+		for _, call := range calls(fi.Decl.Body) {
+			callee := c.P.CalleeAny(fi, call)
+			if callee == nil || callee.Name() != "UpdateRefWithSchema" || callee.Pkg() == nil || !strings.HasSuffix(callee.Pkg().Path(), "/replace") || len(call.Args) != 3 {
+				continue
+			}
+			if !core.IsSpecType(info.TypeOf(call.Args[0]), "Swagger") {
+				continue
+			}
+			n++
+			keyArg, schArg := call.Args[1], call.Args[2]
+			same := func(a, b ast.Expr) bool {
+				if sameExpr(a, b) {
+					return true
+				}
+				// one is a local holding the other
+				for _, pr := range [][2]ast.Expr{{a, b}, {b, a}} {
+					if o := core.ObjOf(info, pr[0]); o != nil {
+						if defs := c.P.Locals(fi).Defs[o]; len(defs) == 1 && defs[0].Kind == core.DefAssign && sameExpr(defs[0].Expr, pr[1]) {
+							return true
+						}
+					}
+				}
+				return false
+			}
+			// atoms of a raise condition
+			type atoms struct{ dirEq, complexOK, other bool }
+			var dirArgs []ast.Expr
+			var eval func(e ast.Expr, dirEq, cx bool, flag types.Object) (bool, bool)
+			eval = func(e ast.Expr, dirEq, cx bool, flag types.Object) (bool, bool) {
+				e = core.Unparen(e)
+				switch x := e.(type) {
+				case *ast.Ident:
+					if flag != nil && core.ObjOf(info, x) == flag {
+						return false, true
+					}
+					if tv, ok := info.Types[x]; ok && tv.Value != nil {
+						return tv.Value.String() == "true", true
+					}
+				case *ast.UnaryExpr:
+					if x.Op == token.NOT {
+						v, ok := eval(x.X, dirEq, cx, flag)
+						return !v, ok
+					}
+				case *ast.BinaryExpr:
+					switch x.Op {
+					case token.LAND, token.LOR:
+						a, ak := eval(x.X, dirEq, cx, flag)
+						b, bk := eval(x.Y, dirEq, cx, flag)
+						if x.Op == token.LAND {
+							return a && b, ak && bk
+						}
+						return a || b, ak && bk
+					case token.EQL, token.NEQ:
+						for _, pr := range [][2]ast.Expr{{x.X, x.Y}, {x.Y, x.X}} {
+							s, isC := core.ConstString(info, pr[1])
+							dir, isCall := core.Unparen(pr[0]).(*ast.CallExpr)
+							if !isC || s != "#/definitions" || !isCall || len(dir.Args) != 1 {
+								continue
+							}
+							if cal := c.P.CalleeAny(fi, dir); cal == nil || cal.FullName() != "path.Dir" {
+								continue
+							}
+							dirArgs = append(dirArgs, dir.Args[0])
+							return dirEq == (x.Op == token.EQL), true
+						}
+					}
+				case *ast.CallExpr:
+					if cal := c.P.StaticCallee(fi, x); cal != nil && cal.Name() == "isAnalyzedAsComplex" {
+						// the analysed schema must be the one written
+						if sel, ok := core.Unparen(x.Fun).(*ast.SelectorExpr); ok {
+							if o := core.ObjOf(info, sel.X); o != nil {
+								for _, d := range c.P.Locals(fi).Defs[o] {
+									if sc, ok := core.Unparen(d.Expr).(*ast.CallExpr); ok && len(sc.Args) == 1 {
+										if v := c.fieldOfLiteral(fi, info, sc.Args[0], "Schema", 0); v != nil && same(v, schArg) {
+											return cx, true
+										}
+									}
+								}
+							}
+						}
+					}
+				}
+				return false, false
+			}
+			var raiseConds []func(dirEq, cx bool) (bool, bool)
+			ast.Inspect(fi.Decl.Body, func(nd ast.Node) bool {
+				switch x := nd.(type) {
+				case *ast.AssignStmt:
+					if x.Pos() < call.Pos() || len(x.Lhs) != 1 || len(x.Rhs) != 1 || !core.IsBool(info.TypeOf(x.Lhs[0])) || !c.flowsToReturn(fi, x.Lhs[0]) {
+						return true
+					}
+					mentions := false
+					ast.Inspect(x.Rhs[0], func(m ast.Node) bool {
+						if cc, ok := m.(*ast.CallExpr); ok {
+							if cal := c.P.StaticCallee(fi, cc); cal != nil && cal.Name() == "isAnalyzedAsComplex" {
+								mentions = true
+							}
+						}
+						return true
+					})
+					if !mentions {
+						return true
+					}
+					flag := core.ObjOf(info, x.Lhs[0])
+					rhs := x.Rhs[0]
+					raiseConds = append(raiseConds, func(dirEq, cx bool) (bool, bool) { return eval(rhs, dirEq, cx, flag) })
+				case *ast.IfStmt:
+					if x.Pos() < call.Pos() || x.Init != nil {
+						return true
+					}
+					mentions := false
+					ast.Inspect(x.Cond, func(m ast.Node) bool {
+						if cc, ok := m.(*ast.CallExpr); ok {
+							if cal := c.P.StaticCallee(fi, cc); cal != nil && cal.Name() == "isAnalyzedAsComplex" {
+								mentions = true
+							}
+						}
+						return true
+					})
+					if !mentions {
+						return true
+					}
+					for _, bs := range x.Body.List {
+						if as, ok := bs.(*ast.AssignStmt); ok && len(as.Lhs) == 1 && len(as.Rhs) == 1 && c.flowsToReturn(fi, as.Lhs[0]) {
+							if tv, isC := info.Types[as.Rhs[0]]; isC && tv.Value != nil && tv.Value.String() == "true" {
+								cond := x.Cond
+								raiseConds = append(raiseConds, func(dirEq, cx bool) (bool, bool) { return eval(cond, dirEq, cx, nil) })
+							}
+						}
+					}
+				}
+				return true
+			})
+			ok, why := false, "no assignment to the returned flag after the write looks at isAnalyzedAsComplex() of the schema written"
+			for _, rc := range raiseConds {
+				dirArgs = nil
+				good, decided := true, true
+				for _, dirEq := range []bool{false, true} {
+					for _, cx := range []bool{false, true} {
+						v, k := rc(dirEq, cx)
+						if !k {
+							decided = false
+						}
+						if v != (!dirEq && cx) {
+							good = false
+						}
+					}
+				}
+				switch {
+				case !decided:
+					why = "the condition raising the returned flag is not a combination of path.Dir(<key>) == \"#/definitions\" and isAnalyzedAsComplex() of the schema written"
+				case !good:
+					why = "the returned flag is not raised exactly when the written schema is complex and its new place is not a top-level definition"
+				default:
+					placeOK := len(dirArgs) > 0
+					for _, a := range dirArgs {
+						if !same(a, keyArg) {
+							placeOK = false
+							why = "the top-level test looks at " + exprStr(a) + " but the schema was written at " + exprStr(keyArg)
+						}
+					}
+					if placeOK {
+						ok = true
+					}
+				}
+				if ok {
+					break
+				}
+			}
+			c.S.Decide(ok, "C03", "GUARD-REINLINE", fi.QName(), c.P.Pos(call.Pos()),
+				"the caller is told (returned flag) exactly when a complex schema was put back inline at a place that is not a top-level definition",
+				why+": a complex schema re-inlined below a definition is not named again and stays inline after a full flatten")
+		}
+	}
+	if n < 1 {
+		c.S.Undecided("C03", "GUARD-REINLINE", "floor", "-", "no flag-returning phase writes a schema back inline (expected: stripOAIGenForRef)")
+	}
+}
+
+// prefixSepRule (C04, ENC-PREFIXSEP): where a key is recognised as lying under another JSON pointer by a prefix
+// test and then rewritten by trimming that prefix, the prefix tested must end with the separator '/' — the trimmed
+// prefix plus "/" — otherwise a sibling whose last token merely starts with the same characters (fooOAIGen /
+// fooOAIGen1) is rewritten to a pointer that does not exist.
+func (c *Ctx) prefixSepRule(reach []*core.FuncInfo) {
+	n := 0
+	for _, fi := range reach {
+		info := c.info(fi)
+		pm := c.parents(fi)
+		for _, call := range calls(fi.Decl.Body) {
+			cal := c.P.CalleeAny(fi, call)
+			if cal == nil || cal.FullName() != "strings.TrimPrefix" || len(call.Args) != 2 {
+				continue
+			}
+			// the dominating prefix test on the same subject
+			var test *ast.CallExpr
+			for _, cd := range c.conds(fi, call) {
+				if cd.Kind != core.CondBool || cd.Neg {
+					continue
+				}
+				if hc, ok := core.Unparen(cd.Expr).(*ast.CallExpr); ok && len(hc.Args) == 2 {
+					if hcal := c.P.CalleeAny(fi, hc); hcal != nil && hcal.FullName() == "strings.HasPrefix" && sameExpr(hc.Args[0], call.Args[0]) {
+						test = hc
+					}
+				}
+			}
+			// switch { case strings.HasPrefix(x, p): … }
+			if test == nil {
+				if cc, ok := pm.Enclosing(call, func(n ast.Node) bool { _, b := n.(*ast.CaseClause); return b }).(*ast.CaseClause); ok {
+					for _, ce := range cc.List {
+						if hc, ok := core.Unparen(ce).(*ast.CallExpr); ok && len(hc.Args) == 2 {
+							if hcal := c.P.CalleeAny(fi, hc); hcal != nil && hcal.FullName() == "strings.HasPrefix" && sameExpr(hc.Args[0], call.Args[0]) {
+								test = hc
+							}
+						}
+					}
+				}
+			}
+			if test == nil {
+				continue
+			}
+			// only pointer-like subjects: the trimmed remainder is joined back into a path
+			joined := false
+			for p := pm[call]; p != nil; p = pm[p] {
+				if jc, ok := p.(*ast.CallExpr); ok {
+					if jcal := c.P.CalleeAny(fi, jc); jcal != nil && jcal.FullName() == "path.Join" {
+						joined = true
+					}
+				}
+				if _, isStmt := p.(ast.Stmt); isStmt {
+					break
+				}
+			}
+			if !joined {
+				continue
+			}
+			n++
+			ok := false
+			pfx := core.Unparen(test.Args[1])
+			if o := core.ObjOf(info, pfx); o != nil {
+				// nested := old + "/"
+				if defs := c.P.Locals(fi).Defs[o]; len(defs) == 1 && defs[0].Kind == core.DefAssign {
+					pfx = core.Unparen(defs[0].Expr)
+				}
+			}
+			if be, isB := pfx.(*ast.BinaryExpr); isB && be.Op == token.ADD {
+				if s, isC := core.ConstString(info, be.Y); isC && s == "/" && sameExpr(be.X, call.Args[1]) {
+					ok = true
+				}
+			}
+			if s, isC := core.ConstString(info, pfx); isC && strings.HasSuffix(s, "/") {
+				ok = true
+			}
+			c.S.Decide(ok, "C04", "ENC-PREFIXSEP", fi.QName()+"/TrimPrefix", c.P.Pos(test.Pos()),
+				"the prefix test includes the '/' separator after the pointer that is trimmed",
+				"the key is taken to lie under "+exprStr(call.Args[1])+" by strings.HasPrefix("+exprStr(test.Args[0])+", "+exprStr(test.Args[1])+"), which also matches a sibling whose name merely starts with the same characters: that sibling's pointer is rewritten to a place that does not exist and the next rewrite fails")
+		}
+	}
+	if n < 1 {
+		c.S.Undecided("C04", "ENC-PREFIXSEP", "floor", "-", "no prefix-test-then-trim rewrite of pointers found (expected: the parents fix-up of stripOAIGenForRef)")
+	}
 }
 
 // resolveSkipped (C09): a $ref that a phase skips because it already has the canonical form '#/definitions/<name>'
@@ -711,4 +1120,169 @@ func (c *Ctx) badKindCallers(fi *core.FuncInfo, idx int, seen map[*core.FuncInfo
 		bad = append(bad, fmt.Sprintf("%s passes %s of type %s at %s", cs.Caller.QName(), exprStr(a), t, c.P.Pos(cs.Call.Pos())))
 	}
 	return bad
+}
+
+// sliceBounds (C09, PANIC-SLICEBOUND): a slice expression whose bound is a parameter of the enclosing function
+// panics when the caller's number exceeds the length; the keys sliced below Flatten have a length decided by the
+// document (a pointer may stop at a response or a parameter instead of its schema). Every such expression must be
+// dominated by a comparison of that parameter with len() of the sliced value (a test or a clamp).
+func (c *Ctx) sliceBounds(reach []*core.FuncInfo) {
+	n := 0
+	for _, fi := range reach {
+		info := c.info(fi)
+		ord := 0
+		ast.Inspect(fi.Decl.Body, func(nd ast.Node) bool {
+			se, ok := nd.(*ast.SliceExpr)
+			if !ok {
+				return true
+			}
+			for _, b := range []ast.Expr{se.Low, se.High} {
+				if b == nil {
+					continue
+				}
+				po := core.ObjOf(info, b)
+				if _, isID := core.Unparen(b).(*ast.Ident); !isID || po == nil {
+					continue
+				}
+				if _, isParam := c.paramIndexOf(fi, po); !isParam {
+					continue
+				}
+				n++
+				ord++
+				// a comparison of the parameter with len(<sliced value>) earlier in the function: either a
+				// dominating condition or the guard of a clamp (if p > len(x) { p = len(x) })
+				compared := false
+				ast.Inspect(fi.Decl.Body, func(m ast.Node) bool {
+					be, ok := m.(*ast.BinaryExpr)
+					if !ok || be.Pos() > se.Pos() {
+						return true
+					}
+					switch be.Op {
+					case token.LSS, token.LEQ, token.GTR, token.GEQ:
+					default:
+						return true
+					}
+					for _, pr := range [][2]ast.Expr{{be.X, be.Y}, {be.Y, be.X}} {
+						if core.ObjOf(info, pr[0]) != po {
+							continue
+						}
+						if lc, ok := core.Unparen(pr[1]).(*ast.CallExpr); ok && isBuiltin(info, lc, "len") && len(lc.Args) == 1 && sameExpr(lc.Args[0], se.X) {
+							compared = true
+						}
+					}
+					return true
+				})
+				k := fmt.Sprintf("%s/slice#%d", fi.QName(), ord)
+				c.S.Decide(compared, "C09", "PANIC-SLICEBOUND", k, c.P.Pos(se.Pos()),
+					"the parameter used as a slice bound is compared with the length of the sliced value first",
+					"the slice bound "+exprStr(b)+" is a parameter that is never compared with len("+exprStr(se.X)+"): for a key shorter than the caller assumes (a pointer to a response or parameter instead of its schema) the expression panics (slice bounds out of range) and Flatten crashes")
+			}
+			return true
+		})
+	}
+	if n < 1 {
+		c.S.Note("PANIC-SLICEBOUND: no slice expression bounded by a parameter below Flatten")
+	}
+}
+
+// selfInline (C09, TERM-SELFINLINE): a phase that merges a definition into one of its referers
+// (replace.UpdateRefWithSchema into the root document at a key taken from the referers) and then deletes the
+// definition must not run for a definition one of whose referers lies inside the definition itself: the schema would
+// be copied into its own sub-schema — a Go value that contains itself without any $ref — and the next
+// classification of it (Schema → inferArray/inferMap → Schema) never ends. Every call of such a phase must
+// therefore be dominated by the negation of a self-reference test: a predicate that looks, among the referers, for
+// one with the prefix <definition path> + "/".
+func (c *Ctx) selfInline(reach []*core.FuncInfo) {
+	n := 0
+	// self-reference predicates: bool functions containing strings.HasPrefix(x, y+"/") inside a range loop
+	isSelfTest := func(g *core.FuncInfo) bool {
+		if g == nil || g.Decl == nil || g.Decl.Body == nil {
+			return false
+		}
+		sig := g.Obj.Type().(*types.Signature)
+		if sig.Results().Len() != 1 || !core.IsBool(sig.Results().At(0).Type()) {
+			return false
+		}
+		ginfo := c.info(g)
+		found := false
+		ast.Inspect(g.Decl.Body, func(nd ast.Node) bool {
+			rs, ok := nd.(*ast.RangeStmt)
+			if !ok {
+				return true
+			}
+			for _, call := range calls(rs.Body) {
+				cal := c.P.CalleeAny(g, call)
+				if cal == nil || cal.FullName() != "strings.HasPrefix" || len(call.Args) != 2 {
+					continue
+				}
+				pfx := core.Unparen(call.Args[1])
+				if o := core.ObjOf(ginfo, pfx); o != nil {
+					if defs := c.P.Locals(g).Defs[o]; len(defs) == 1 && defs[0].Kind == core.DefAssign {
+						pfx = core.Unparen(defs[0].Expr)
+					}
+				}
+				if be, isB := pfx.(*ast.BinaryExpr); isB && be.Op == token.ADD {
+					if s, isC := core.ConstString(ginfo, be.Y); isC && s == "/" {
+						found = true
+					}
+				}
+			}
+			return true
+		})
+		return found
+	}
+	for _, fi := range reach {
+		if fi.Pkg.PkgPath != core.ModPath {
+			continue
+		}
+		info := c.info(fi)
+		merges, deletes := false, false
+		for _, call := range calls(fi.Decl.Body) {
+			if callee := c.P.CalleeAny(fi, call); callee != nil && callee.Name() == "UpdateRefWithSchema" && len(call.Args) == 3 && core.IsSpecType(info.TypeOf(call.Args[0]), "Swagger") {
+				merges = true
+			}
+			if isBuiltin(info, call, "delete") && len(call.Args) == 2 {
+				if _, tn := core.NamedOf(info.TypeOf(call.Args[0])); tn == "Definitions" {
+					deletes = true
+				}
+			}
+		}
+		if !merges || !deletes {
+			continue
+		}
+		// every call site of the phase
+		for _, caller := range c.P.SortedFuncs() {
+			for _, call := range calls(caller.Decl.Body) {
+				if c.P.StaticCallee(caller, call) != fi.Obj {
+					continue
+				}
+				n++
+				guarded := false
+				for _, cd := range c.conds(caller, call) {
+					if cd.Kind != core.CondBool || !cd.Neg {
+						continue
+					}
+					if tc, ok := core.Unparen(cd.Expr).(*ast.CallExpr); ok {
+						if g := c.P.StaticCallee(caller, tc); g != nil && isSelfTest(c.P.Funcs[g]) {
+							guarded = true
+						}
+					}
+				}
+				// or a test at the top of the phase itself, before the merge
+				if !guarded {
+					for _, inner := range calls(fi.Decl.Body) {
+						if g := c.P.StaticCallee(fi, inner); g != nil && isSelfTest(c.P.Funcs[g]) {
+							guarded = true
+						}
+					}
+				}
+				c.S.Decide(guarded, "C09", "TERM-SELFINLINE", caller.QName()+"->"+fi.Name(), c.P.Pos(call.Pos()),
+					"the merge of a definition into its referers is skipped for a definition referred to from inside itself",
+					fi.Name()+" merges a definition into the first of its referers and deletes it, and nothing on the way to this call excludes a referer that lies inside the definition itself (no test for a referer with the prefix <definition path>+\"/\"): a recursive imported definition whose name had to be changed (e.g. an array of itself named \"[]\") is copied into its own items — a schema value that contains itself — and Schema() overflows the stack on it")
+			}
+		}
+	}
+	if n < 1 {
+		c.S.Note("TERM-SELFINLINE: no phase both merges a definition into a referer and deletes it")
+	}
 }
